@@ -263,6 +263,11 @@ def _is_reduction_call(c: ast.Call, red_locals: Set[str]) -> bool:
     tail = d.split(".")[-1] if d else (c.func.attr if isinstance(c.func, ast.Attribute) else "")
     if isinstance(c.func, ast.Name) and c.func.id in red_locals:
         return True
+    if isinstance(c.func, ast.IfExp):
+        # (numpy.nanmin if … else numpy.nanmax)(x)
+        arms = [c.func.body, c.func.orelse]
+        if all((dotted(a) or "").split(".")[-1] in REDUCTIONS for a in arms):
+            return True
     if tail in REDUCTIONS:
         # builtins min/max/sum/sorted on python lists are included deliberately (same semantics)
         return True
